@@ -1,5 +1,6 @@
 pub mod c01;
 pub mod c09;
+pub mod c12;
 pub mod c13;
 pub mod c14;
 pub mod c15;
@@ -20,6 +21,7 @@ pub fn all() -> Vec<Box<dyn Prop>> {
         Box::new(c09::C09),
         Box::new(seqprops::C10),
         Box::new(seqprops::C11),
+        Box::new(c12::C12),
         Box::new(c13::C13),
         Box::new(c14::C14),
         Box::new(c15::C15),
